@@ -466,7 +466,16 @@ func (e *Engine) noteUnknownCall(fn, callee string)  { unknownCalls[fn+" -> "+ca
 
 func (fc *FnCtx) applyWriteSet(ws *WriteSet) {
 	if ws.All {
+		keep := map[string]Term{}
+		for k := range ws.Except {
+			if _, ok := fc.svSort[k]; ok {
+				keep[k] = fc.lookup(k)
+			}
+		}
 		fc.havocHeap()
+		for _, k := range sortedKeys(keep) {
+			fc.env.inc[k] = keep[k].S
+		}
 	}
 	allocPre := fc.lookup("alloc")
 	for _, n := range ws.sorted() {
@@ -905,6 +914,9 @@ func (fc *FnCtx) doRunDefers(x *ssa.RunDefers) {
 			continue
 		}
 		callee := fc.resolveCallee(d)
+		if !blockReaches(d.Block(), x.Block()) {
+			continue // this defer statement cannot have executed on a path to this return
+		}
 		registered := d.Block().Dominates(x.Block())
 		inLoop := false
 		for _, li := range fc.loopList {
@@ -1082,4 +1094,25 @@ func (fc *FnCtx) checkAllowed(x ssa.CallInstruction, s *CallSite) {
 		}
 	}
 	fc.assertUnmatched(fmt.Sprintf("%s:only-calls(%s)", fc.name, s.display), "call to "+s.display+" is not in the function's list of permitted effectful calls")
+}
+
+func blockReaches(from, to *ssa.BasicBlock) bool {
+	seen := map[*ssa.BasicBlock]bool{}
+	var visit func(b *ssa.BasicBlock) bool
+	visit = func(b *ssa.BasicBlock) bool {
+		if b == to {
+			return true
+		}
+		if seen[b] {
+			return false
+		}
+		seen[b] = true
+		for _, s := range b.Succs {
+			if visit(s) {
+				return true
+			}
+		}
+		return false
+	}
+	return visit(from)
 }
